@@ -321,6 +321,12 @@ func ParseTemplateSource(src []byte, format ast.Format, imported, noParseShow bo
 					last = nil
 				}
 				cutSpaces(firstText, last)
+				if last != nil && tok.pos.Line != line {
+					// The text starts on a later line than the one being
+					// closed, after a statement that spans lines: whatever
+					// it holds, it does not keep the spaces of that line.
+					cutSpaces(firstText, nil)
+				}
 			}
 			line = tok.lin
 			firstText = text
